@@ -18,7 +18,10 @@ RULE = ("W3: a real Strategy set up on a generated universe (late listings, NaN 
         "invoked and temp['selected'] / temp['stat'] compared with an independent reference computed from the raw input frame truncated at now. "
         "Covers SelectAll, SelectThese, SelectHasData, SelectN, SelectMomentum/StatTotalReturn, SetStat, SelectWhere, SelectRandomly, SelectRegex, "
         "SelectTypes, SelectActive, ResolveOnTheRun. One evaluation = one algo call; distinct = (algo, flag pair, parameter class, calendar); "
-        "non-trivial = the universe row contained at least one untradable ticker or the reference selection is a proper non-empty subset.")
+        "non-trivial = the universe row contained at least one untradable ticker or the reference selection is a proper non-empty subset. "
+        "Unit 'chain': stacks of 1-5 selection algos (SelectAll/SelectThese/SelectWhere first, then ResolveOnTheRun, SelectRegex, SelectHasData, SelectActive, "
+        "SetStat+SelectN or SelectMomentum) whose SAME instances are called on 2-6 consecutive dates, as a backtest does; on every date the result must equal "
+        "that of freshly built instances on a freshly built strategy at that date.")
 ASSUMPTIONS = ["for (include_no_data=True, include_negative=False) the documentation does not settle the result: only 'contains every priced-positive candidate, "
                "inside the universe' is asserted", "ranked selection: any valid top-k set is accepted (ties may fall either way)"]
 
@@ -28,11 +31,12 @@ KINDS = ["all", "these", "hasdata", "stat", "momentum", "selectn", "where", "ran
 
 def plan(tier):
     q = tier == "quick"
-    return [dict(unit="w3", n=500 if q else 15000, builds=["py"], case_timeout=120)]
+    return [dict(unit="w3", n=500 if q else 15000, builds=["py"], case_timeout=120),
+            dict(unit="chain", n=100 if q else 3000, builds=["py"], case_timeout=120)]
 
 
 def floors(tier):
-    c = {"calls": 10000}
+    c = {"calls": 10000, "chain_runs": 2000, "chain_dates": 6000, "chain_otr": 300, "chain_these": 600, "chain_selectn": 200, "chain_momentum": 200, "chain_hasdata": 300}
     for k in KINDS:
         c["calls_" + k] = 300
     return {"min_decided": 8000, "counters": c, "max_undecided_frac": 0.2}
@@ -349,7 +353,143 @@ def one(cs, j):
     return (sig, None, w, nt)
 
 
+def _inst(spec):
+    """a fresh instance of one chain element (constructor arguments are fresh copies)"""
+    k = spec[0]
+    if k == "all":
+        return algos.SelectAll(spec[1], spec[2])
+    if k == "these":
+        return algos.SelectThese(list(spec[1]), spec[2], spec[3])
+    if k == "where":
+        return algos.SelectWhere("sig", spec[1], spec[2])
+    if k == "regex":
+        return algos.SelectRegex(spec[1])
+    if k == "hasdata":
+        return algos.SelectHasData(pd.DateOffset(days=spec[1]), spec[2], spec[3], spec[4])
+    if k == "otr":
+        return algos.ResolveOnTheRun("otr", spec[1], spec[2])
+    if k == "setstat":
+        return algos.SetStat("stat")
+    if k == "selectn":
+        return algos.SelectN(spec[1], spec[2], spec[3], True)
+    if k == "momentum":
+        return algos.SelectMomentum(spec[1], pd.DateOffset(days=spec[2]), pd.DateOffset(days=spec[3]))
+    if k == "active":
+        return algos.SelectActive()
+    raise KeyError(k)
+
+
+def _run_chain(s, insts):
+    s.temp = {}
+    try:
+        for a in insts:
+            if not a(s):
+                return ("stopped", type(a).__name__, list(s.temp.get("selected", [])))
+    except Exception as e:
+        return ("raised", type(e).__name__)
+    return ("ok", list(s.temp.get("selected", [])))
+
+
+def chain(cs, j):
+    """Documented stacks of selection algos driven the way a backtest drives them - the SAME instances called on consecutive dates - must leave
+    on every date what freshly built instances leave on a freshly built strategy at that date (the documented set is a function of the
+    arguments, the data up to now and the closed/rolled marks; nothing may leak from one date's call into the next)."""
+    rng = random.Random(cs * 7919 + j)
+    rs = np.random.RandomState((cs * 7919 + j) % (2 ** 32))
+    data, _, dts, i, cols, freq, dirty = mk(rng, rs, False)
+    nd = len(dts)
+    aliases = ["OTR_A", "OTR_B"]
+    extra = {"otr": pd.DataFrame({a: [rng.choice(cols) for _ in dts] for a in aliases}, index=dts),
+             "sig": pd.DataFrame(rs.rand(nd, len(cols)) > 0.4, index=dts, columns=cols),
+             "stat": pd.DataFrame(rs.randn(nd, len(cols)), index=dts, columns=cols)}
+    flags = lambda: (rng.random() < 0.3, rng.random() < 0.25)
+    first = rng.choice(["all", "these", "these", "where"])
+    use_otr = first == "these" and rng.random() < 0.5
+    specs = []
+    if first == "all":
+        specs.append(("all",) + flags())
+    elif first == "where":
+        specs.append(("where",) + flags())
+    else:
+        tk = rng.sample(cols, rng.randint(1, len(cols)))
+        if use_otr:
+            tk = rng.sample(aliases, rng.randint(1, 2)) + tk
+            rng.shuffle(tk)
+            specs.append(("these", tk, True, False))
+        else:
+            specs.append(("these", tk) + flags())
+    if use_otr:
+        specs.append(("otr",) + flags())
+    for _ in range(rng.randint(0, 2)):
+        k = rng.choice(["regex", "hasdata", "active"])
+        if k == "regex":
+            specs.append(("regex", rng.choice(["t[0-2]", "t[1-4]", "t", "^t[35]$"])))
+        elif k == "hasdata":
+            specs.append(("hasdata", rng.choice([3, 7, 14]), rng.randint(1, 3)) + flags())
+        else:
+            specs.append(("active",))
+    r = rng.random()
+    if r < 0.3:
+        specs += [("setstat",), ("selectn", rng.randint(1, 4), rng.random() < 0.5, rng.random() < 0.2)]
+    elif r < 0.5:
+        specs.append(("momentum", rng.randint(1, 4), rng.choice([3, 7, 14]), rng.choice([0, 1, 2])))
+    closed = set(rng.sample(cols, rng.randint(0, 2)))
+
+    def mk_strategy():
+        st = Strategy("s", [], children=list(cols))
+        st.setup(data, **extra)
+        st.perm["closed"] = set(closed)
+        return st
+
+    A = mk_strategy()
+    insts = [_inst(sp) for sp in specs]
+    i0 = rng.randint(0, max(0, nd - 4))
+    k = rng.randint(2, min(6, nd - i0))
+    sig = ["chain", specs[0][0], tuple(sp[0] for sp in specs[1:]), freq]
+    w = {"chain": [list(map(str, sp)) for sp in specs], "freq": freq, "first_row": i0, "dates": k}
+    nt = False
+    for d in range(i0, i0 + k):
+        A.update(dts[d])
+        got = _run_chain(A, insts)
+        B = mk_strategy()
+        B.update(dts[d])
+        exp = _run_chain(B, [_inst(sp) for sp in specs])
+        if got[0] == "ok" and 0 < len(got[1]) < len(cols):
+            nt = True
+        if got != exp:
+            return (sig, "c14_chain_depends_on_earlier_calls", dict(w, date=str(dts[d]), call_number=d - i0 + 1, same_instances=list(got), fresh_instances=list(exp)), True, k)
+    return (sig, None, w, nt, k)
+
+
+def run_chain_case(cs):
+    cnt = {}
+    out = []
+    sigs = set()
+    held = 0
+    sample = None
+    for j in range(BATCH):
+        sig, mech, w, nt, k = chain(cs, j)
+        common.bump(cnt, "chain_runs")
+        common.bump(cnt, "chain_dates", k)
+        for a in [sig[1]] + list(sig[2]):
+            common.bump(cnt, "chain_" + a)
+        if mech:
+            out.append(common.result(common.VIOL, sig=[str(x) for x in sig], nt=True, mech=mech, witness=dict(w, case_seed=cs, sub_index=j)))
+        else:
+            held += 1
+            if nt:
+                sigs.add(repr(sig))
+                sample = sample or w
+    r = common.result(common.HELD, nt=True, cnt=cnt, sample=sample or {"batch": BATCH})
+    r["n"] = held
+    r["sigs"] = [[s_] for s_ in sigs]
+    out.append(r)
+    return out
+
+
 def run_case(unit, cs, idx, build, params):
+    if unit == "chain":
+        return run_chain_case(cs)
     cnt = {}
     out = []
     held = 0
